@@ -25,8 +25,6 @@ Variable H : N -> N -> N -> bool -> list N -> list N.
 Variable L : nat.
 Hypothesis Lpos : 0 < L.
 Hypothesis H_len : forall l o d b x, length (H l o d b x) = KS.
-Hypothesis H_inj : forall l o d b x o' d' b' x',
-  H l o d b x = H l o' d' b' x' -> o = o' /\ d = d' /\ b = b' /\ x = x'.
 
 (* a job list whose entries name honest keys of the leaves lv *)
 Definition honest_jobs (lv : list (list N)) (jobs : list (nat * list N)) : Prop :=
@@ -46,7 +44,7 @@ Proof.
   - intros [<- B]. nia.
 Qed.
 
-Lemma write_to_at_sound : forall jobs lv s n f f',
+Lemma write_to_at_sound : forall jobs lv s n f f', nocoll H L lv ->
   shape L lv -> n = length lv -> honest_jobs lv jobs ->
   write_to_at H L s n jobs f = Ok f' ->
   forall x, file_get f' x =
@@ -54,7 +52,7 @@ Lemma write_to_at_sound : forall jobs lv s n f f',
     then (match leaf_byte lv x with Some b => Some b | None => file_get f x end)
     else file_get f x.
 Proof.
-  induction jobs as [|[i k] jobs IH]; intros lv s n f f' Hs Hn Hj Hw x.
+  induction jobs as [|[i k] jobs IH]; intros lv s n f f' Hnc Hs Hn Hj Hw x.
   - cbn in *. inversion Hw. reflexivity.
   - apply Forall_cons_iff in Hj. destruct Hj as [[d [Hd Hk]] Hj]. cbn [fst snd] in *. subst k.
     cbn [write_to_at] in Hw. destruct (lookup (hkey H L i d) s) as [d'|] eqn:El; [|discriminate].
@@ -65,8 +63,8 @@ Proof.
       - inversion Hd; subst. split; auto. intros Hne. destruct lv; [reflexivity|]. exfalso. apply Hne, Hfull. discriminate.
       - destruct (IHl Hs' i Hd) as [A B]. split; auto. intros Hne. cbn. f_equal. auto. }
     destruct Hlen as [Hlen Hlast].
-    assert (d' = d) by (apply (verify_honest H L H_inj n i d d'); auto). subst d'.
-    rewrite (IH lv s n _ f' Hs Hn Hj Hw x). cbn [existsb fst].
+    assert (d' = d) by (apply (verify_honest H L lv n i d d' Hnc Hd); auto). subst d'.
+    rewrite (IH lv s n _ f' Hnc Hs Hn Hj Hw x). cbn [existsb fst].
     rewrite file_get_write_at.
     destruct (Nat.eqb_spec i (x / L)) as [Ei|Ei].
     + cbn [orb]. subst i. unfold leaf_byte. rewrite Hd.
@@ -145,18 +143,18 @@ Proof.
 Qed.
 
 (* the jobs may run in any order: any list with the same members *)
-Theorem write_to_at_content : forall s c jobs f',
+Theorem write_to_at_content : forall s c jobs f', nocoll H L (split_leaves L c) ->
   (forall j, In j jobs <-> In j (index_from 0 (keys_of_leaves H L 0 (split_leaves L c)))) ->
   write_to_at H L s (length (split_leaves L c)) jobs [] = Ok f' ->
   forall x, file_get f' x = nth_error c x.
 Proof.
-  intros s c jobs f' Hperm Hw x.
+  intros s c jobs f' Hnc Hperm Hw x.
   set (lv := split_leaves L c) in *.
   assert (Hsh : shape L lv) by (apply split_shape; auto).
   assert (Hj : honest_jobs lv jobs).
   { pose proof (honest_index_from lv 0 [] eq_refl) as Hh. cbn [app] in Hh.
     unfold honest_jobs in *. rewrite Forall_forall in *. intros j Hin. apply Hh. now apply Hperm. }
-  rewrite (write_to_at_sound jobs lv s (length lv) [] f' Hsh eq_refl Hj Hw x).
+  rewrite (write_to_at_sound jobs lv s (length lv) [] f' Hnc Hsh eq_refl Hj Hw x).
   rewrite <- (split_leaves_concat L Lpos c). fold lv. rewrite nth_error_concat_shape by auto.
   cbn [file_get].
   assert (He : existsb (fun j => Nat.eqb (fst j) (x / L)) jobs = (x / L <? length lv)).
@@ -172,15 +170,14 @@ End WriteTo.
 
 Theorem write_to_at_any_store : forall H L, 0 < L ->
   (forall l o d b x, length (H l o d b x) = KS) ->
-  (forall l o d b x o' d' b' x', H l o d b x = H l o' d' b' x' -> o = o' /\ d = d' /\ b = b' /\ x = x') ->
-  forall s c ks jobs f',
+  forall s c ks jobs f', nocoll H L (split_leaves L c) ->
   leaves_for_hash H L (tree_key H L c) s = Some ks ->
   (forall j, In j jobs <-> In j (index_from 0 ks)) ->
   write_to_at H L s (length ks) jobs [] = Ok f' ->
   forall x, file_get f' x = nth_error c x.
 Proof.
-  intros H L Lpos H_len H_inj s c ks jobs f' Hl Hperm Hw x.
-  apply (leaves_for_hash_sound H L Lpos H_len H_inj) in Hl. subst ks.
+  intros H L Lpos H_len s c ks jobs f' Hnc Hl Hperm Hw x.
+  apply (leaves_for_hash_sound H L Lpos H_len) in Hl; [|exact Hnc]. subst ks.
   rewrite keys_length in Hw.
-  eapply (write_to_at_content H L Lpos H_inj); eauto.
+  eapply (write_to_at_content H L Lpos); eauto.
 Qed.
